@@ -1,7 +1,12 @@
 use crate::push::instructions::{InstructionCache, InstructionSet};
 use crate::push::item::{Item, PushType};
 use crate::push::state::PushState;
+#[cfg(not(feature = "verif"))]
 use std::time::{Duration, Instant};
+#[cfg(feature = "verif")]
+use std::time::Duration;
+#[cfg(feature = "verif")]
+use crate::push::verif_seam::Instant;
 
 #[derive(Debug, PartialEq)]
 pub enum PushInterpreterState {
